@@ -10,7 +10,7 @@ Definition op_target (o : op) : url := l_url (locals_of o).
 (* messages covered by the theorem, with the side conditions of the sequential theorem *)
 Definition conc_safeb (w : world) (o : op) : bool :=
   match o with
-  | Open _ _ _ | Change _ _ | Save _ | Close _ | Ignore _ _ | RecordLint => op_safeb w o
+  | Open _ _ _ _ | Change _ _ _ | Save _ | Close _ | Ignore _ _ | RecordLint => op_safeb w o
   | _ => false
   end.
 
@@ -43,31 +43,7 @@ Proof.
   destruct (xstep c y) as [y1|] eqn:E; [|discriminate]. rewrite (xstep_step _ _ _ E). apply IH, H.
 Qed.
 
-(* ---------- local versions of the facts the invariant gives about one document ---------- *)
-Lemma entry_facts_l : forall w u e, coh w u -> docs_ok w -> texts_ok w -> lookup u (s_docs w) = Some e ->
-  exists cd, lookup u (w_open w) = Some cd /\ e_lang e = Some (cd_lang cd) /\ kind (cd_lang cd) <> KNone /\
-    e_text e = Some (cd_text cd) /\ e_dict e = cur_dict w u /\ e_lcfg e = w_ccfg w /\ e_pcfg e = w_ccfg w /\
-    e_ign e = cd_ign cd /\ e_ident e = 0.
-Proof.
-  intros w u e C Hd Htx He. destruct (Hd u e He) as (Ht & Hl & Hi).
-  unfold coh, pubval, expected in C. rewrite He in C.
-  destruct (e_text e) as [t|] eqn:Et; [|congruence]. destruct (e_lang e) as [lg|] eqn:El; [|congruence].
-  destruct (lookup u (w_open w)) as [cd|] eqn:Eo; [|discriminate].
-  pose proof (Htx u cd Eo) as Tk. unfold text_ok in Tk.
-  exists cd. destruct (kind (cd_lang cd)) eqn:Ek; try discriminate; inversion C; subst;
-    (split; [reflexivity|]); rewrite ?Ek; repeat split; try congruence; try reflexivity.
-  - unfold cur_dict. destruct (e_dict e); cbn in *. congruence.
-  - apply Nat.eqb_eq in Tk. unfold cur_dict. destruct (e_dict e); cbn in *. congruence.
-Qed.
-
-Lemma no_entry_facts_l : forall w u, coh w u -> lookup u (s_docs w) = None ->
-  match lookup u (w_open w) with Some cd => kind (cd_lang cd) = KNone | None => True end.
-Proof.
-  intros w u C He. unfold coh, pubval, expected in C. rewrite He in C.
-  destruct (lookup u (w_open w)) as [cd|]; [|exact Logic.I]. destruct (kind (cd_lang cd)); try discriminate. reflexivity.
-Qed.
-
-(* what stage_ok, coh and fresh of document v can see of the world *)
+(* what stage_pred, coh and fresh of document v can see of the world *)
 Definition same_at (v : url) (w w' : world) : Prop :=
   lookup v (w_open w') = lookup v (w_open w) /\ lookup v (s_docs w') = lookup v (s_docs w) /\
   w_udict w' = w_udict w /\ fdict_of w' v = fdict_of w v /\ w_ccfg w' = w_ccfg w /\ s_cfg w' = s_cfg w /\
@@ -76,31 +52,34 @@ Definition same_at (v : url) (w w' : world) : Prop :=
 Lemma same_at_refl : forall v w, same_at v w w.
 Proof. intros. repeat split. Qed.
 
+Lemma same_at_want : forall v w w', same_at v w w' -> want_entry w' v = want_entry w v.
+Proof.
+  intros v w w' (A & B & C & D & E & F & G & H). unfold want_entry, good_entry, cur_dict. rewrite A, C, D, E. reflexivity.
+Qed.
+Lemma same_at_upd : forall v w w' t lgo nv, same_at v w w' -> upd_entry w' v t lgo nv = upd_entry w v t lgo nv.
+Proof.
+  intros v w w' t lgo nv (A & B & C & D & E & F & G & H). unfold upd_entry, cur_dict. rewrite B, C, D, E. reflexivity.
+Qed.
 Lemma same_at_coh : forall v w w', same_at v w w' -> coh w v -> coh w' v.
 Proof.
-  intros v w w' (A & B & C & D & E & F & G & H) X. unfold coh, pubval, expected in *. rewrite A, B, C, D, E, F. exact X.
+  intros v w w' S X. unfold coh in *. rewrite (same_at_want v w w' S). destruct S as (A & B & _). rewrite B. exact X.
 Qed.
 Lemma same_at_fresh : forall v w w', same_at v w w' -> fresh w v -> fresh w' v.
 Proof.
   intros v w w' (A & B & C & D & E & F & G & H) X. unfold fresh, expected in *. rewrite H, A, C, D, E. exact X.
 Qed.
-Lemma same_at_ready : forall v w w' t lgo, same_at v w w' -> ready w v t lgo -> ready w' v t lgo.
-Proof.
-  intros v w w' t lgo (A & B & C & D & E & F & G & H) X. unfold ready, cur_dict in *. rewrite A, B, C, D, E. exact X.
-Qed.
-Lemma same_at_entry_cond : forall v w w' t lgo, same_at v w w' -> entry_cond w v t lgo -> entry_cond w' v t lgo.
-Proof. intros v w w' t lgo (A & B & C & D & E & F & G & H) X. unfold entry_cond in *. rewrite B. exact X. Qed.
 Lemma same_at_reread_ready : forall v w w', same_at v w w' -> reread_ready w v -> reread_ready w' v.
 Proof.
   intros v w w' S X. pose proof S as (A & B & C & D & E & F & G & H). unfold reread_ready in *. rewrite G.
   destruct (is_file v); [|eapply same_at_coh; eassumption].
   destruct (lookup v (w_disk w)); [|eapply same_at_coh; eassumption].
-  destruct X as [X1 X2]. split; [eapply same_at_ready|eapply same_at_entry_cond]; eassumption.
+  rewrite (same_at_upd v w w' _ _ _ S), (same_at_want v w w' S). exact X.
 Qed.
 
 (* ---------- where a handler is, and what holds there ---------- *)
 Inductive stage :=
 | SUpd (n : nat)       (* n instrs of update_seq ++ [IPublish] done, n <= 6 *)
+| SIdent (k : nat)     (* inside use_ident_dict (doc_state mutex held): k of its 3 instrs done, k <= 2 *)
 | SPub                 (* [IPublish] *)
 | SRead                (* [IReadFile; IPublish] *)
 | SClose               (* [IClose; IUnlock] *)
@@ -111,6 +90,7 @@ Inductive stage :=
 Definition prog_of (s : stage) : list instr :=
   match s with
   | SUpd n => skipn n (update_seq ++ [IPublish])
+  | SIdent k => skipn k [IIdentUD; IIdentFD; IIdentFinish; IPublish]
   | SPub => [IPublish]
   | SRead => [IReadFile; IPublish]
   | SClose => [IClose; IUnlock]
@@ -121,20 +101,27 @@ Definition prog_of (s : stage) : list instr :=
 
 Definition ign_pending (w : world) (u : url) (k : nat) : Prop :=
   match lookup u (s_docs w) with
-  | Some e => exists cd ign0, lookup u (w_open w) = Some cd /\ cd_ign cd = ins k ign0 /\
-                e_lang e = Some (cd_lang cd) /\ kind (cd_lang cd) <> KNone /\ e_text e = Some (cd_text cd) /\
-                e_dict e = cur_dict w u /\ e_lcfg e = w_ccfg w /\ e_pcfg e = w_ccfg w /\ e_ign e = ign0
+  | Some e => Some (e_add_ign k e) = want_entry w u
   | None => coh w u /\ fresh w u
   end.
+
+(* the entry use_ident_dict is about to complete *)
+Definition ident_final (w : world) (u : url) (t : text) (e2 : entry) : entry :=
+  e_set_doc t (w_ccfg w) (e_set_dict (with_ident (cur_dict w u) (t_ident t)) (w_ccfg w) (e_set_ident (t_ident t) e2)).
 
 Definition stage_pred (w : world) (l : locals) (s : stage) : Prop :=
   let u := l_url l in
   match s with
   | SUpd n =>
       n <= 6 /\
-      (exists t, l_text l = Some t /\ ready w u t (l_lang l) /\ entry_cond w u t (l_lang l)) /\
+      (exists t, l_text l = Some t /\ upd_entry w u t (l_lang l) (l_ver l) = want_entry w u) /\
       (n = 2 -> l_ans l = w_ccfg w) /\ (4 <= n -> l_snap l = w_ccfg w) /\
       (5 <= n -> l_ud l = w_udict w) /\ (6 <= n -> l_fd l = fdict_of w u)
+  | SIdent k =>
+      k <= 2 /\
+      (exists t e2, l_text l = Some t /\ lookup u (s_docs w) = Some (e_set_ident (t_ident t) e2) /\
+                    Some (ident_final w u t e2) = want_entry w u) /\
+      l_snap l = w_ccfg w /\ (1 <= k -> l_ud l = w_udict w) /\ (2 <= k -> l_fd l = fdict_of w u)
   | SPub => coh w u
   | SRead => reread_ready w u
   | SClose => lookup u (w_open w) = None
@@ -150,23 +137,25 @@ Lemma same_at_stage : forall w w' l s, same_at (l_url l) w w' -> stage_pred w l 
 Proof.
   intros w w' l s S X. pose proof S as (A & B & C & D & E & F & G & H).
   destruct s; cbn [stage_pred] in *.
-  - destruct X as (Hn & (t & T1 & T2 & T3) & X1 & X2 & X3 & X4).
-    split; [exact Hn|]. split; [exists t; split; [exact T1|split; [eapply same_at_ready|eapply same_at_entry_cond]; eassumption]|].
+  - destruct X as (Hn & (t & T1 & T2) & X1 & X2 & X3 & X4).
+    split; [exact Hn|]. split; [exists t; split; [exact T1|rewrite (same_at_upd _ _ _ _ _ _ S), (same_at_want _ _ _ S); exact T2]|].
     rewrite E, C, D. repeat split; assumption.
+  - destruct X as (Hk & (t & e2 & T1 & T2 & T3) & X1 & X2 & X3).
+    split; [exact Hk|]. split; [exists t, e2; split; [exact T1|split; [rewrite B; exact T2|]]|].
+    + rewrite (same_at_want _ _ _ S). unfold ident_final, cur_dict in *. rewrite C, D, E. exact T3.
+    + rewrite E, C, D. repeat split; assumption.
   - eapply same_at_coh; eassumption.
   - eapply same_at_reread_ready; eassumption.
   - rewrite A. exact X.
   - destruct X; split; [eapply same_at_coh|eapply same_at_fresh]; eassumption.
-  - unfold ign_pending, cur_dict in *. rewrite B, A, C, D, E.
-    destruct (lookup (l_url l) (s_docs w)); [exact X|].
+  - unfold ign_pending in *. rewrite B.
+    destruct (lookup (l_url l) (s_docs w)); [rewrite (same_at_want _ _ _ S); exact X|].
     destruct X; split; [eapply same_at_coh|eapply same_at_fresh]; eassumption.
   - destruct X; split; [eapply same_at_coh|eapply same_at_fresh]; eassumption.
 Qed.
 
 Record SInv (y : sys) : Prop := mkSInv {
   si_cfg : s_cfg (y_world y) = w_ccfg (y_world y);
-  si_docs : docs_ok (y_world y);
-  si_texts : texts_ok (y_world y);
   si_ids : NoDup (map h_id (y_flight y));
   si_next : forall hs, In hs (y_flight y) -> h_id hs < y_next y;
   si_urls : NoDup (map hurl (y_flight y));
@@ -228,96 +217,116 @@ Definition after_step (w' : world) (l' : locals) (rest : list instr) : Prop :=
   end.
 
 Definition frame (u : url) (w w' : world) : Prop :=
-  s_cfg w' = w_ccfg w' /\ docs_ok w' /\ texts_ok w' /\ forall v, v <> u -> same_at v w w'.
+  s_cfg w' = w_ccfg w' /\ forall v, v <> u -> same_at v w w'.
 
-Lemma frame_same_world_log : forall u w p, s_cfg w = w_ccfg w -> docs_ok w -> texts_ok w -> frame u w (send u p w).
+Lemma frame_same_world_log : forall u w p, s_cfg w = w_ccfg w -> frame u w (send u p w).
 Proof.
-  intros u w p Hc Hd Ht. split; [exact Hc|]. split; [exact Hd|]. split; [exact Ht|].
+  intros u w p Hc. split; [exact Hc|].
   intros v Hv. repeat split. rewrite lastword_send. apply url_eqb_neq in Hv. rewrite Hv. reflexivity.
 Qed.
 
-Lemma hstep_upd6 : forall w l t push l' w',
-  s_cfg w = w_ccfg w -> docs_ok w -> texts_ok w ->
-  l_text l = Some t -> ready w (l_url l) t (l_lang l) -> entry_cond w (l_url l) t (l_lang l) ->
-  l_snap l = w_ccfg w -> l_ud l = w_udict w -> l_fd l = fdict_of w (l_url l) ->
+Lemma frame_refl : forall u w, s_cfg w = w_ccfg w -> frame u w w.
+Proof. intros u w A. split; [exact A|]. intros v _. apply same_at_refl. Qed.
+
+Lemma frame_docs : forall u w d, s_cfg w = w_ccfg w ->
+  (forall v, v <> u -> lookup v d = lookup v (s_docs w)) -> frame u w (set_docs d w).
+Proof. intros u w d Hc Hd. split; [exact Hc|]. intros v Hv. repeat split. cbn [s_docs set_docs]. apply Hd, Hv. Qed.
+
+(* the critical section of update_document: either it completes, or it enters use_ident_dict with the
+   doc_state mutex held *)
+Lemma exec_update : forall w l t push l' w',
+  l_text l = Some t -> l_snap l = w_ccfg w -> l_ud l = w_udict w -> l_fd l = fdict_of w (l_url l) ->
   exec IUpdate l w = Some (push, l', w') ->
-  push = [] /\ l' = l /\ frame (l_url l) w w' /\ coh w' (l_url l).
+  l' = l /\
+  ((push = [] /\ w' = set_docs (installed w (l_url l) t (l_lang l) (l_ver l)) w) \/
+   (exists e2, push = [IIdentUD; IIdentFD; IIdentFinish] /\
+      w' = set_lock true (set_docs (upsert (l_url l) (e_set_ident (t_ident t) e2) (s_docs w)) w) /\
+      upd_entry w (l_url l) t (l_lang l) (l_ver l) = Some (ident_final w (l_url l) t e2))).
 Proof.
-  intros w l t push l' w' Hc Hd Htx Ht Hr EC Hs Hu Hf H.
-  cbn [exec] in H. destruct (s_lock w) eqn:Hl; [discriminate|]. rewrite Ht, Hs, Hu, Hf in H.
-  fold (cur_dict w (l_url l)) in H.
-  destruct (install_spec w (l_url l) t (l_lang l) Hl Hc Hd Htx Hr) as ((Cu & _) & Hd2 & Hfr & Hexp).
-  assert (Hres : push = [] /\ l' = l /\ w' = set_docs (installed w (l_url l) t (l_lang l)) w).
-  { unfold entry_cond in EC. unfold installed.
-    destruct (lookup (l_url l) (s_docs w)) as [e|] eqn:He.
-    - destruct EC as (lge & Hlg & Hk & Hi).
-      destruct (dictv_eqb (e_dict e) (cur_dict w (l_url l))) eqn:Ed; cbn [e_lang e_set_dict e_ident] in H; rewrite Hlg in H;
-        (destruct (kind lge) eqn:Ek; [| |congruence]);
-        rewrite ?(Hi eq_refl), ?Nat.eqb_refl in H; inversion H; repeat split.
-    - destruct (l_lang l) as [lg|] eqn:El; cbn [new_entry e_dict e_lang] in H; rewrite dictv_eqb_refl in H; cbn [new_entry e_lang e_ident] in H.
-      + destruct (kind lg) eqn:Ek.
-        * inversion H; repeat split.
-        * rewrite (EC lg eq_refl Ek) in H. cbn [Nat.eqb] in H. inversion H; repeat split.
-        * inversion H; repeat split.
-      + inversion H; repeat split. }
-  destruct Hres as (-> & -> & ->). split; [reflexivity|]. split; [reflexivity|]. split.
-  - split; [exact Hc|]. split; [exact Hd2|]. split; [exact Htx|].
-    intros v Hv. destruct (Hfr v Hv) as (A & _ & _). repeat split. exact A.
-  - unfold coh in *. rewrite Hexp in Cu.
-    change (expected (set_docs (installed w (l_url l) t (l_lang l)) w) (l_url l)) with (expected w (l_url l)).
-    rewrite <- Cu. unfold pubval. cbn [s_docs set_docs send set_log s_cfg set_scfg]. rewrite Hc. reflexivity.
+  intros w l t push l' w' Ht Hs Hu Hf H. cbn [exec] in H. destruct (s_lock w); [discriminate|].
+  rewrite Ht, Hs, Hu, Hf in H. fold (cur_dict w (l_url l)) in H. unfold installed, upd_entry, ident_final.
+  set (e1 := rebase _ _ _) in *.
+  destruct (stale (l_ver l) (e_ver e1)); [inversion H; split; [reflexivity|left; split; reflexivity]|].
+  set (e2 := bump _ e1) in *.
+  destruct (e_lang e2) as [lg|]; [|inversion H; split; [reflexivity|left; split; reflexivity]].
+  destruct (kind lg); [inversion H; split; [reflexivity|left; split; reflexivity]| |inversion H; split; [reflexivity|left; split; reflexivity]].
+  destruct (e_ident e2 =? t_ident t); inversion H; (split; [reflexivity|]).
+  - left. split; reflexivity.
+  - right. exists e2. repeat split.
 Qed.
 
-Lemma frame_refl : forall u w, s_cfg w = w_ccfg w -> docs_ok w -> texts_ok w -> frame u w w.
-Proof. intros u w A B C. split; [exact A|]. split; [exact B|]. split; [exact C|]. intros v _. apply same_at_refl. Qed.
-
 Lemma hstep : forall w l s i p push l' w',
-  s_cfg w = w_ccfg w -> docs_ok w -> texts_ok w ->
+  s_cfg w = w_ccfg w ->
   prog_of s = i :: p -> stage_pred w l s -> exec i l w = Some (push, l', w') ->
   l_url l' = l_url l /\ frame (l_url l) w w' /\ after_step w' l' (push ++ p).
 Proof.
-  intros w l s i p push l' w' Hc Hd Htx Hp Hs H.
-  destruct s as [n| | | | |k|]; cbn [prog_of] in Hp.
+  intros w l s i p push l' w' Hc Hp Hs H.
+  destruct s as [n|k| | | | |k|]; cbn [prog_of] in Hp.
   - (* update_document *)
-    cbn [stage_pred] in Hs. destruct Hs as (Hn & (t & T1 & T2 & T3) & A2 & A4 & A5 & A6).
+    cbn [stage_pred] in Hs. destruct Hs as (Hn & (t & T1 & T2) & A2 & A4 & A5 & A6).
     destruct n as [|[|[|[|[|[|[|n]]]]]]]; [| | | | | | |exfalso; lia];
-      cbn [skipn update_seq app] in Hp; inversion Hp; subst i p; clear Hp; cbn [exec] in H.
-    + inversion H; subst. split; [reflexivity|]. split; [apply frame_refl; assumption|].
+      cbn [skipn update_seq app] in Hp; inversion Hp; subst i p; clear Hp.
+    + cbn [exec] in H. inversion H; subst. split; [reflexivity|]. split; [apply frame_refl; assumption|].
       cbn [app after_step]. exists (SUpd 1). split; [reflexivity|]. cbn [stage_pred].
-      split; [lia|]. split; [exists t; repeat split; assumption|]. repeat split; intros; lia.
-    + inversion H; subst. split; [reflexivity|]. split; [apply frame_refl; assumption|].
-      cbn [app after_step]. exists (SUpd 2). split; [reflexivity|]. cbn [stage_pred l_url lset_ans l_text l_lang l_ans l_snap l_ud l_fd].
-      split; [lia|]. split; [exists t; repeat split; assumption|]. repeat split; intros; try lia. 
-    + inversion H; subst. rewrite (A2 eq_refl). split; [reflexivity|].
+      split; [lia|]. split; [exists t; split; assumption|]. repeat split; intros; lia.
+    + cbn [exec] in H. inversion H; subst. split; [reflexivity|]. split; [apply frame_refl; assumption|].
+      cbn [app after_step]. exists (SUpd 2). split; [reflexivity|]. cbn [stage_pred l_url lset_ans l_text l_lang l_ver l_ans l_snap l_ud l_fd].
+      split; [lia|]. split; [exists t; split; assumption|]. repeat split; intros; try lia.
+    + cbn [exec] in H. inversion H; subst. rewrite (A2 eq_refl). split; [reflexivity|].
       assert (S : forall v, same_at v w (set_scfg (w_ccfg w) w)) by (intro v; repeat split; cbn; symmetry; exact Hc).
-      split; [split; [reflexivity|split; [exact Hd|split; [exact Htx|intros v _; apply S]]]|].
+      split; [split; [reflexivity|intros v _; apply S]|].
       cbn [app after_step]. exists (SUpd 3). split; [reflexivity|]. cbn [stage_pred].
-      split; [lia|]. split; [exists t; split; [exact T1|split; [eapply same_at_ready; [apply S|assumption]|eapply same_at_entry_cond; [apply S|assumption]]]|].
+      split; [lia|]. split; [exists t; split; [exact T1|rewrite (same_at_upd _ _ _ _ _ _ (S _)), (same_at_want _ _ _ (S _)); exact T2]|].
       repeat split; intros; lia.
+    + cbn [exec] in H. inversion H; subst. split; [reflexivity|]. split; [apply frame_refl; assumption|].
+      cbn [app after_step]. exists (SUpd 4). split; [reflexivity|]. cbn [stage_pred l_url lset_snap l_text l_lang l_ver l_ans l_snap l_ud l_fd].
+      split; [lia|]. split; [exists t; split; assumption|]. repeat split; intros; try lia; try exact Hc.
+    + cbn [exec] in H. inversion H; subst. split; [reflexivity|]. split; [apply frame_refl; assumption|].
+      cbn [app after_step]. exists (SUpd 5). split; [reflexivity|]. cbn [stage_pred l_url lset_ud l_text l_lang l_ver l_ans l_snap l_ud l_fd].
+      split; [lia|]. split; [exists t; split; assumption|]. repeat split; intros; try lia; try reflexivity; try (apply A4; lia).
+    + cbn [exec] in H. inversion H; subst. split; [reflexivity|]. split; [apply frame_refl; assumption|].
+      cbn [app after_step]. exists (SUpd 6). split; [reflexivity|]. cbn [stage_pred l_url lset_fd l_text l_lang l_ver l_ans l_snap l_ud l_fd].
+      split; [lia|]. split; [exists t; split; assumption|]. repeat split; intros; try lia; try reflexivity; try (apply A4; lia); try (apply A5; lia).
+    + destruct (exec_update w l t push l' w' T1 (A4 ltac:(lia)) (A5 ltac:(lia)) (A6 ltac:(lia)) H) as (-> & [(-> & ->)|(e2 & -> & -> & E)]).
+      * split; [reflexivity|]. split; [apply frame_docs; [exact Hc|intros v Hv; apply lookup_installed_neq, Hv]|].
+        cbn [app after_step]. exists SPub. split; [reflexivity|]. cbn [stage_pred].
+        unfold coh. cbn [s_docs set_docs]. rewrite lookup_installed_eq. exact T2.
+      * split; [reflexivity|]. split.
+        -- split; [exact Hc|]. intros v Hv. apply url_eqb_neq in Hv. repeat split. cbn [s_docs set_lock set_docs]. apply lookup_upsert_neq, Hv.
+        -- cbn [app after_step]. exists (SIdent 0). split; [reflexivity|]. cbn [stage_pred].
+           split; [lia|]. split; [|split; [apply A4; lia|split; intros; lia]].
+           exists t, e2. split; [exact T1|]. split; [cbn [s_docs set_lock set_docs]; apply lookup_upsert_eq|].
+           change (Some (ident_final w (l_url l) t e2) = want_entry w (l_url l)). rewrite <- E. exact T2.
+  - (* use_ident_dict *)
+    cbn [stage_pred] in Hs. destruct Hs as (Hk & (t & e2 & T1 & T2 & T3) & A0 & A1 & A2).
+    destruct k as [|[|[|k]]]; [| | |exfalso; lia]; cbn [skipn] in Hp; inversion Hp; subst i p; clear Hp; cbn [exec] in H.
     + inversion H; subst. split; [reflexivity|]. split; [apply frame_refl; assumption|].
-      cbn [app after_step]. exists (SUpd 4). split; [reflexivity|]. cbn [stage_pred l_url lset_snap l_text l_lang l_ans l_snap l_ud l_fd].
-      split; [lia|]. split; [exists t; repeat split; assumption|]. repeat split; intros; try lia; try exact Hc.
+      cbn [app after_step]. exists (SIdent 1). split; [reflexivity|]. cbn [stage_pred l_url lset_ud l_text l_snap l_ud l_fd].
+      split; [lia|]. split; [exists t, e2; repeat split; assumption|]. split; [exact A0|]. split; intros; [reflexivity|lia].
     + inversion H; subst. split; [reflexivity|]. split; [apply frame_refl; assumption|].
-      cbn [app after_step]. exists (SUpd 5). split; [reflexivity|]. cbn [stage_pred l_url lset_ud l_text l_lang l_ans l_snap l_ud l_fd].
-      split; [lia|]. split; [exists t; repeat split; assumption|]. repeat split; intros; try lia; try reflexivity; try (apply A4; lia).
-    + inversion H; subst. split; [reflexivity|]. split; [apply frame_refl; assumption|].
-      cbn [app after_step]. exists (SUpd 6). split; [reflexivity|]. cbn [stage_pred l_url lset_fd l_text l_lang l_ans l_snap l_ud l_fd].
-      split; [lia|]. split; [exists t; repeat split; assumption|]. repeat split; intros; try lia; try reflexivity; try (apply A4; lia); try (apply A5; lia).
-    + change (exec IUpdate l w = Some (push, l', w')) in H.
-      destruct (hstep_upd6 w l t push l' w' Hc Hd Htx T1 T2 T3 (A4 ltac:(lia)) (A5 ltac:(lia)) (A6 ltac:(lia)) H) as (-> & -> & F & C).
-      split; [reflexivity|]. split; [exact F|]. cbn [app after_step]. exists SPub. split; [reflexivity|exact C].
+      cbn [app after_step]. exists (SIdent 2). split; [reflexivity|]. cbn [stage_pred l_url lset_fd l_text l_snap l_ud l_fd].
+      split; [lia|]. split; [exists t, e2; repeat split; assumption|]. split; [exact A0|]. split; intros; [apply A1; lia|reflexivity].
+    + rewrite T1, T2 in H. inversion H; subst. clear H. split; [reflexivity|]. split.
+      * split; [exact Hc|]. intros v Hv. apply url_eqb_neq in Hv. repeat split. cbn [s_docs set_lock set_docs]. apply lookup_upsert_neq, Hv.
+      * cbn [app after_step]. exists SPub. split; [reflexivity|]. cbn [stage_pred].
+        unfold coh. cbn [s_docs set_lock set_docs]. rewrite lookup_upsert_eq.
+        match goal with |- _ = want_entry ?W _ => change (want_entry W (l_url l')) with (want_entry w (l_url l')) end.
+        rewrite <- T3. unfold ident_final, with_ident, cur_dict. cbn [e_ident e_set_ident dv_user dv_file].
+        rewrite A0, (A1 ltac:(lia)), (A2 ltac:(lia)). reflexivity.
   - (* publish *)
     inversion Hp; subst i p. cbn [exec] in H. destruct (s_lock w); [discriminate|]. inversion H; subst.
     split; [reflexivity|]. split; [apply frame_same_world_log; assumption|]. cbn [app after_step].
-    cbn [stage_pred] in Hs. split; [exact Hs|]. unfold fresh. rewrite lastword_send, url_eqb_refl. exact Hs.
+    cbn [stage_pred] in Hs. split; [exact Hs|]. unfold fresh. rewrite lastword_send, url_eqb_refl.
+    change (expected (send (l_url l') (pubval w (l_url l')) w) (l_url l')) with (expected w (l_url l')).
+    apply coh_pubval; assumption.
   - (* re-read *)
     inversion Hp; subst i p. cbn [exec] in H. cbn [stage_pred] in Hs. unfold reread_ready in Hs.
     destruct (is_file (l_url l)) eqn:Ef.
     + destruct (lookup (l_url l) (w_disk w)) as [t|] eqn:Ed.
       * inversion H; subst. split; [reflexivity|]. split; [apply frame_refl; assumption|].
         cbn [app]. change (update_seq ++ [IPublish]) with (prog_of (SUpd 0)). unfold after_step. cbn [prog_of skipn update_seq app].
-        exists (SUpd 0). split; [reflexivity|]. cbn [stage_pred l_url lset_lang lset_text l_text l_lang].
-        destruct Hs as [R E]. split; [lia|]. split; [exists t; repeat split; assumption|]. repeat split; intros; lia.
+        exists (SUpd 0). split; [reflexivity|]. cbn [stage_pred l_url lset_ver lset_lang lset_text l_text l_lang l_ver].
+        split; [lia|]. split; [exists t; split; [reflexivity|exact Hs]|]. repeat split; intros; lia.
       * inversion H; subst. split; [reflexivity|]. split; [apply frame_refl; assumption|].
         cbn [app after_step]. exists SPub. split; [reflexivity|exact Hs].
     + inversion H; subst. split; [reflexivity|]. split; [apply frame_refl; assumption|].
@@ -325,39 +334,29 @@ Proof.
   - (* close *)
     inversion Hp; subst i p. cbn [exec] in H. destruct (s_lock w); [discriminate|]. inversion H; subst. clear H.
     cbn [stage_pred] in Hs. split; [reflexivity|]. split.
-    + split; [exact Hc|]. split; [|split; [exact Htx|]].
-      * intros v e He. cbn [s_docs set_lock send set_log set_docs] in He. rewrite lookup_remove in He.
-        destruct (url_eqb v (l_url l')); [discriminate|exact (Hd v e He)].
-      * intros v Hv. apply url_eqb_neq in Hv. repeat split.
-        -- cbn [s_docs set_lock send set_log set_docs]. apply lookup_remove_neq, Hv.
-        -- change (lastword (set_lock true (send (l_url l') PEmpty (set_docs (remove (l_url l') (s_docs w)) w))) v)
-             with (lastword (send (l_url l') PEmpty w) v). rewrite lastword_send, Hv. reflexivity.
+    + split; [exact Hc|].
+      intros v Hv. apply url_eqb_neq in Hv. repeat split.
+      * cbn [s_docs set_lock send set_log set_docs]. apply lookup_remove_neq, Hv.
+      * change (lastword (set_lock true (send (l_url l') PEmpty (set_docs (remove (l_url l') (s_docs w)) w))) v)
+          with (lastword (send (l_url l') PEmpty w) v). rewrite lastword_send, Hv. reflexivity.
     + cbn [app after_step]. exists SUnlock. split; [reflexivity|]. cbn [stage_pred]. split.
-      * unfold coh, pubval, expected. cbn [s_docs set_lock send set_log set_docs w_open]. rewrite lookup_remove_eq, Hs. reflexivity.
+      * unfold coh, want_entry. cbn [s_docs set_lock send set_log set_docs w_open]. rewrite lookup_remove_eq, Hs. reflexivity.
       * unfold fresh, expected. cbn [set_lock send set_log set_docs w_open]. rewrite Hs.
         change (lastword (set_lock true (send (l_url l') PEmpty (set_docs (remove (l_url l') (s_docs w)) w))) (l_url l'))
           with (lastword (send (l_url l') PEmpty w) (l_url l')). rewrite lastword_send, url_eqb_refl. reflexivity.
   - (* unlock *)
     inversion Hp; subst i p. cbn [exec] in H. inversion H; subst. split; [reflexivity|].
-    split; [split; [exact Hc|split; [exact Hd|split; [exact Htx|intros v _; repeat split]]]|].
+    split; [split; [exact Hc|intros v _; repeat split]|].
     cbn [app after_step]. exact Hs.
   - (* ignore *)
     inversion Hp; subst i p. cbn [exec] in H. destruct (s_lock w); [discriminate|].
     cbn [stage_pred] in Hs. unfold ign_pending in Hs.
     destruct (lookup (l_url l) (s_docs w)) as [e|] eqn:Ee.
-    + inversion H; subst. clear H. destruct Hs as (cd & ign0 & Ho & Hi & E1 & E2 & E3 & E4 & E5 & E6 & E7).
+    + inversion H; subst. clear H.
       split; [reflexivity|]. split.
-      * split; [exact Hc|]. split; [|split; [exact Htx|]].
-        -- intros v e' He. cbn [s_docs set_docs] in He. rewrite lookup_upsert in He.
-           destruct (url_eqb v (l_url l')); [|exact (Hd v e' He)].
-           inversion He; subst e'. destruct (Hd _ _ Ee) as (A & B & C). cbn. repeat split; assumption.
-        -- intros v Hv. apply url_eqb_neq in Hv. repeat split. cbn [s_docs set_docs]. apply lookup_upsert_neq, Hv.
+      * apply frame_docs; [exact Hc|]. intros v Hv. apply url_eqb_neq in Hv. apply lookup_upsert_neq, Hv.
       * cbn [app after_step]. exists SPub. split; [reflexivity|]. cbn [stage_pred].
-        unfold coh, pubval, expected. cbn [s_docs set_docs s_cfg w_open w_udict w_ccfg]. rewrite lookup_upsert_eq, Ho.
-        cbn. rewrite E1, E3, E4, E5, E6, E7, Hi, Hc.
-        pose proof (Htx _ _ Ho) as Tk. unfold text_ok in Tk. unfold cur_dict.
-        change (fdict_of (set_docs (upsert (l_url l') (e_add_ign k e) (s_docs w)) w) (l_url l')) with (fdict_of w (l_url l')).
-        destruct (kind (cd_lang cd)) eqn:Ek; [reflexivity| |congruence]. apply Nat.eqb_eq in Tk. rewrite Tk. reflexivity.
+        unfold coh. cbn [s_docs set_docs]. rewrite lookup_upsert_eq. exact Hs.
     + inversion H; subst. split; [reflexivity|]. split; [apply frame_refl; assumption|]. cbn [app after_step]. exact Hs.
   - (* record *)
     inversion Hp; subst i p. cbn [exec] in H. inversion H; subst. split; [reflexivity|].
@@ -430,14 +429,12 @@ Proof.
   inversion H; subst y'; clear H.
   destruct (find_h_In _ _ _ Ef) as [Hin Hid].
   destruct (si_stage y S hs Hin) as (s & Hs1 & Hs2). rewrite Ep in Hs1. symmetry in Hs1.
-  destruct (hstep _ _ _ _ _ _ _ _ (si_cfg y S) (si_docs y S) (si_texts y S) Hs1 Hs2 Ee) as (Hu & (Fc & Fd & Ft & Fs) & Ha).
+  destruct (hstep _ _ _ _ _ _ _ _ (si_cfg y S) Hs1 Hs2 Ee) as (Hu & (Fc & Fs) & Ha).
   set (h' := mkh id (push ++ p) l').
   assert (Hu' : hurl h' = hurl hs) by exact Hu.
   assert (Hid' : h_id h' = h_id hs) by (symmetry; exact Hid).
   constructor; cbn [y_world y_flight y_next].
   - exact Fc.
-  - exact Fd.
-  - exact Ft.
   - apply replace_h_NoDup_ids, (si_ids y S).
   - intros hs' Hin'. destruct (replace_h_In h' _ (si_ids y S) hs' Hin') as [(-> & _ & _)|(A & _)].
     + cbn [h_id h']. rewrite <- Hid. apply (si_next y S), Hin.
@@ -463,78 +460,53 @@ Proof.
 Qed.
 
 (* ---------- a message is admitted ---------- *)
-Lemma ready_gen_l : forall w wd u t, coh w u -> docs_ok w -> texts_ok w ->
-  w_open wd = w_open w -> s_docs wd = s_docs w -> w_ccfg wd = w_ccfg w -> w_udict wd = w_udict w -> w_fdict wd = w_fdict w ->
-  match lookup u (w_open w) with Some cd => kind (cd_lang cd) = KNone \/ cd_text cd = t | None => True end ->
-  ready wd u t None /\ entry_cond wd u t None.
-Proof.
-  intros w wd u t C Hd Htx Eo Ed Ec Eu Ef Hx. unfold ready, entry_cond, cur_dict, fdict_of. rewrite Eo, Ed, Ec, Eu, Ef.
-  fold (fdict_of w u). fold (cur_dict w u).
-  destruct (lookup u (s_docs w)) as [e|] eqn:Ee.
-  - destruct (entry_facts_l w u e C Hd Htx Ee) as (cd & Hc & H1 & H2 & H3 & H4 & H5 & H6 & H7 & H8).
-    rewrite Hc in *. destruct Hx as [Hx|Hx]; [congruence|].
-    split; [repeat split; try assumption; intros _; exact H5|].
-    exists (cd_lang cd). repeat split; try assumption.
-    intro Hk. pose proof (Htx u cd Hc) as Tk. unfold text_ok in Tk. rewrite Hk in Tk.
-    apply Nat.eqb_eq in Tk. congruence.
-  - pose proof (no_entry_facts_l w u C Ee) as N. destruct (lookup u (w_open w)) as [cd|].
-    + split; [right; split; [exact N|left; reflexivity]|intros lg E; discriminate].
-    + split; [split; reflexivity|intros lg E; discriminate].
-Qed.
-
 Definition admit_facts (w w0 : world) (u : url) : Prop :=
-  s_cfg w0 = w_ccfg w0 /\ docs_ok w0 /\ texts_ok w0 /\ forall v, v <> u -> same_at v w w0.
+  s_cfg w0 = w_ccfg w0 /\ forall v, v <> u -> same_at v w w0.
 
 Lemma same_at_open_upsert : forall w u cd v, v <> u -> same_at v w (set_open (upsert u cd (w_open w)) w).
 Proof.
   intros w u cd v Hv. apply url_eqb_neq in Hv. repeat split. cbn [w_open set_open]. apply lookup_upsert_neq, Hv.
 Qed.
 
-Lemma texts_ok_upsert_l : forall w u cd, texts_ok w -> text_ok (cd_lang cd) (cd_text cd) = true ->
-  texts_ok (set_open (upsert u cd (w_open w)) w).
-Proof.
-  intros w u cd Ht Hk v cd' Hv. cbn [w_open set_open] in Hv. rewrite lookup_upsert in Hv.
-  destruct (url_eqb v u); [inversion Hv; subst cd'; exact Hk|exact (Ht v cd' Hv)].
-Qed.
-
 Lemma admit_stage : forall w o id,
-  s_cfg w = w_ccfg w -> docs_ok w -> texts_ok w -> coh w (op_target o) -> fresh w (op_target o) ->
+  s_cfg w = w_ccfg w -> coh w (op_target o) -> fresh w (op_target o) ->
   conc_safeb w o = true ->
   stage_ok (client_effect o w) (mkh id (prog o) (locals_of o)) /\ admit_facts w (client_effect o w) (op_target o).
 Proof.
-  intros w o id Hc Hd Htx C F Hs. unfold stage_ok, admit_facts. cbn [h_prog h_loc].
-  destruct o as [u l t|u t|u|u|tg|x u|x u|u k| |c order]; cbn [conc_safeb op_safeb] in Hs; try discriminate;
-    unfold op_target in *; cbn [locals_of l_url lset_lang lset_text lset_word loc0] in *.
+  intros w o id Hc C F Hs. unfold stage_ok, admit_facts. cbn [h_prog h_loc].
+  destruct o as [u l t v|u t v|u|u|tg|x u|x u|u k| |c order]; cbn [conc_safeb op_safeb] in Hs; try discriminate;
+    unfold op_target in *; cbn [locals_of l_url lset_ver lset_lang lset_text lset_word loc0] in *.
   - (* open *)
     destruct (lookup u (w_open w)) as [cd0|] eqn:Eo; [discriminate|]. cbn [client_effect].
     assert (Hno : lookup u (s_docs w) = None).
-    { destruct (lookup u (s_docs w)) as [e|] eqn:Ee; [|reflexivity].
-      destruct (entry_facts_l w u e C Hd Htx Ee) as (cd & Hcd & _). congruence. }
+    { unfold coh, want_entry in C. rewrite Eo in C. exact C. }
     split.
-    + exists (SUpd 0). split; [reflexivity|]. cbn [stage_pred l_url l_text l_lang lset_lang lset_text loc0].
+    + exists (SUpd 0). split; [reflexivity|]. cbn [stage_pred l_url l_text l_lang l_ver lset_ver lset_lang lset_text loc0].
       split; [lia|]. split; [|repeat split; intros; lia].
-      exists t. split; [reflexivity|]. unfold ready, entry_cond. cbn [w_open set_open s_docs].
-      rewrite lookup_upsert_eq, Hno. cbn. split; [left; repeat split|].
-      intros lg E Hk. inversion E; subst lg. unfold text_ok in Hs. rewrite Hk in Hs. apply Nat.eqb_eq, Hs.
-    + split; [exact Hc|]. split; [exact Hd|]. split; [apply texts_ok_upsert_l; assumption|]. intros v Hv. apply same_at_open_upsert, Hv.
+      exists t. split; [reflexivity|].
+      rewrite upd_entry_new by exact Hno. unfold want_entry. cbn [w_open set_open].
+      rewrite lookup_upsert_eq. cbn [cd_lang]. destruct (kind l); reflexivity.
+    + split; [exact Hc|]. intros x Hx. apply same_at_open_upsert, Hx.
   - (* change *)
     destruct (lookup u (w_open w)) as [cd|] eqn:Eo; [|discriminate]. cbn [client_effect]. rewrite Eo.
     set (w0 := set_open _ w).
-    assert (R : ready w0 u t None /\ entry_cond w0 u t None).
-    { unfold ready, entry_cond, w0. cbn [w_open set_open s_docs w_ccfg]. rewrite lookup_upsert_eq. cbn [cd_text cd_lang cd_ign].
-      change (cur_dict (set_open (upsert u {| cd_lang := cd_lang cd; cd_text := t; cd_ign := cd_ign cd |} (w_open w)) w) u) with (cur_dict w u).
-      destruct (lookup u (s_docs w)) as [e|] eqn:Ee.
-      - destruct (entry_facts_l w u e C Hd Htx Ee) as (cd' & Hcd & H1 & H2 & H3 & H4 & H5 & H6 & H7 & H8).
-        rewrite Eo in Hcd. inversion Hcd; subst cd'.
-        split; [repeat split; try assumption; intros _; exact H5|].
-        exists (cd_lang cd). repeat split; try assumption.
-        intro Hk. unfold text_ok in Hs. rewrite Hk in Hs. apply Nat.eqb_eq in Hs. congruence.
-      - pose proof (no_entry_facts_l w u C Ee) as N. rewrite Eo in N.
-        split; [right; split; [exact N|left; reflexivity]|intros lg E; discriminate]. }
     split.
-    + exists (SUpd 0). split; [reflexivity|]. cbn [stage_pred l_url l_text l_lang lset_lang lset_text loc0].
-      split; [lia|]. split; [exists t; split; [reflexivity|exact R]|repeat split; intros; lia].
-    + split; [exact Hc|]. split; [exact Hd|]. split; [apply texts_ok_upsert_l; assumption|]. intros v Hv. apply same_at_open_upsert, Hv.
+    + exists (SUpd 0). split; [reflexivity|]. cbn [stage_pred l_url l_text l_lang l_ver lset_ver lset_lang lset_text loc0].
+      split; [lia|]. split; [|repeat split; intros; lia]. exists t. split; [reflexivity|].
+      unfold want_entry. unfold w0 at 2. cbn [w_open set_open]. rewrite lookup_upsert_eq. cbn [cd_lang].
+      destruct (lookup u (s_docs w)) as [e|] eqn:Ee.
+      * destruct (coh_entry w u e C Ee) as (cd' & Ho & Hk & ->). rewrite Eo in Ho. inversion Ho; subst cd'.
+        rewrite (upd_entry_spec w0 u t None (Some v) (cd_lang cd) (cur_dict w u) (idof (cd_lang cd) (cd_text cd)) (w_ccfg w)
+                   (Some (cd_text cd)) (w_ccfg w) (cd_ign cd) (with_ident (cur_dict w u) (idof (cd_lang cd) (cd_text cd))) (cd_ver cd)).
+        -- destruct (kind (cd_lang cd)); [reflexivity|reflexivity|congruence].
+        -- exact Ee.
+        -- exact Hk.
+        -- apply idof_plain.
+        -- reflexivity.
+        -- cbn [stale]. apply Nat.ltb_ge. apply Nat.leb_le, Hs.
+      * rewrite upd_entry_absent by exact Ee.
+        pose proof (coh_no_entry w u C Ee) as N. rewrite Eo in N. rewrite N. reflexivity.
+    + split; [exact Hc|]. intros x Hx. apply same_at_open_upsert, Hx.
   - (* save *)
     set (w0 := client_effect (Save u) w).
     assert (Eo : w_open w0 = w_open w) by (unfold w0; cbn [client_effect]; destruct (lookup u (w_open w)); [destruct (is_file u)|]; reflexivity).
@@ -543,48 +515,44 @@ Proof.
       by (unfold w0; cbn [client_effect]; destruct (lookup u (w_open w)); [destruct (is_file u)|]; repeat split).
     destruct Ec as (Ec & Eu & Ef & Es & El).
     assert (Cu0 : coh w0 u).
-    { unfold coh, pubval, expected, fdict_of in *. rewrite Ed, Es, Eo, Eu, Ef, Ec. exact C. }
+    { unfold coh. rewrite Ed, (want_entry_same w w0 u Eo Eu Ef Ec). exact C. }
     split.
     + exists SRead. split; [reflexivity|]. cbn [stage_pred l_url loc0]. unfold reread_ready.
       destruct (is_file u) eqn:Efile; [|exact Cu0].
       destruct (lookup u (w_disk w0)) as [t|] eqn:Edk; [|exact Cu0].
-      apply (ready_gen_l w w0 u t C Hd Htx Eo Ed Ec Eu Ef).
-      destruct (lookup u (w_open w)) as [cd|] eqn:Eo'; [|exact Logic.I]. right.
+      apply (reread_upd w0 w0 u t Cu0); try reflexivity.
+      rewrite Eo. destruct (lookup u (w_open w)) as [cd|] eqn:Eo'; [|exact Logic.I]. right.
       unfold w0 in Edk. cbn [client_effect] in Edk. rewrite Eo', Efile in Edk. cbn [w_disk set_disk] in Edk.
       rewrite lookup_upsert_eq in Edk. congruence.
-    + split; [rewrite Es, Ec; exact Hc|]. split; [unfold docs_ok; rewrite Ed; exact Hd|]. split; [unfold texts_ok; rewrite Eo; exact Htx|].
-      intros v Hv. apply url_eqb_neq in Hv. unfold same_at, lastword, fdict_of. rewrite Eo, Ed, Eu, Ef, Ec, Es, El.
+    + split; [rewrite Es, Ec; exact Hc|].
+      intros x Hx. apply url_eqb_neq in Hx. unfold same_at, lastword, fdict_of. rewrite Eo, Ed, Eu, Ef, Ec, Es, El.
       repeat split. unfold w0. cbn [client_effect]. destruct (lookup u (w_open w)); [destruct (is_file u)|]; try reflexivity.
-      cbn [w_disk set_disk]. apply lookup_upsert_neq, Hv.
+      cbn [w_disk set_disk]. apply lookup_upsert_neq, Hx.
   - (* close *)
     cbn [client_effect]. split.
     + exists SClose. split; [reflexivity|]. cbn [stage_pred l_url loc0 w_open set_open]. apply lookup_remove_eq.
-    + split; [exact Hc|]. split; [exact Hd|]. split.
-      * intros v cd Hv. cbn [w_open set_open] in Hv. rewrite lookup_remove in Hv. destruct (url_eqb v u); [discriminate|exact (Htx v cd Hv)].
-      * intros v Hv. apply url_eqb_neq in Hv. repeat split. cbn [w_open set_open]. apply lookup_remove_neq, Hv.
+    + split; [exact Hc|]. intros x Hx. apply url_eqb_neq in Hx. repeat split. cbn [w_open set_open]. apply lookup_remove_neq, Hx.
   - (* ignore *)
     cbn [client_effect]. destruct (lookup u (w_open w)) as [cd|] eqn:Eo.
     + split.
-      * exists (SIgn k). split; [reflexivity|]. cbn [stage_pred l_url loc0]. unfold ign_pending. cbn [s_docs set_open w_open w_ccfg].
-        change (cur_dict (set_open _ w) u) with (cur_dict w u).
+      * exists (SIgn k). split; [reflexivity|]. cbn [stage_pred l_url loc0]. unfold ign_pending. cbn [s_docs set_open].
         destruct (lookup u (s_docs w)) as [e|] eqn:Ee.
-        -- destruct (entry_facts_l w u e C Hd Htx Ee) as (cd' & Hcd & H1 & H2 & H3 & H4 & H5 & H6 & H7 & H8).
-           rewrite Eo in Hcd. inversion Hcd; subst cd'.
-           exists (mkcdoc (cd_lang cd) (cd_text cd) (ins k (cd_ign cd))), (cd_ign cd). rewrite lookup_upsert_eq. cbn. repeat split; assumption.
-        -- pose proof (no_entry_facts_l w u C Ee) as N. rewrite Eo in N.
-           unfold coh, fresh, pubval, expected, lastword in *. cbn [s_docs set_open w_open s_log]. rewrite Ee, lookup_upsert_eq. cbn. rewrite N.
+        -- destruct (coh_entry w u e C Ee) as (cd' & Ho & Hk & ->). rewrite Eo in Ho. inversion Ho; subst cd'.
+           unfold want_entry. cbn [w_open set_open]. rewrite lookup_upsert_eq. cbn [cd_lang].
+           destruct (kind (cd_lang cd)); [reflexivity|reflexivity|congruence].
+        -- pose proof (coh_no_entry w u C Ee) as N. rewrite Eo in N.
+           unfold coh, want_entry, fresh, expected, lastword in *. cbn [s_docs set_open w_open s_log]. rewrite Ee, lookup_upsert_eq. cbn [cd_lang]. rewrite N.
            rewrite Eo, N in F. split; [reflexivity|exact F].
-      * split; [exact Hc|]. split; [exact Hd|]. split; [apply texts_ok_upsert_l; [exact Htx|cbn; exact (Htx u cd Eo)]|].
-        intros v Hv. apply same_at_open_upsert, Hv.
+      * split; [exact Hc|]. intros x Hx. apply same_at_open_upsert, Hx.
     + split.
       * exists (SIgn k). split; [reflexivity|]. cbn [stage_pred l_url loc0]. unfold ign_pending.
         destruct (lookup u (s_docs w)) as [e|] eqn:Ee; [|split; assumption].
-        destruct (entry_facts_l w u e C Hd Htx Ee) as (cd' & Hcd & _). congruence.
-      * split; [exact Hc|]. split; [exact Hd|]. split; [exact Htx|]. intros v _. apply same_at_refl.
+        destruct (coh_entry w u e C Ee) as (cd' & Ho & _). congruence.
+      * split; [exact Hc|]. intros x _. apply same_at_refl.
   - (* record *)
     cbn [client_effect]. split.
     + exists SRec. split; [reflexivity|]. cbn [stage_pred]. split; assumption.
-    + split; [exact Hc|]. split; [exact Hd|]. split; [exact Htx|]. intros v _. apply same_at_refl.
+    + split; [exact Hc|]. intros x _. apply same_at_refl.
 Qed.
 
 Lemma busy_app : forall u a b, busy u (a ++ b) = busy u a || busy u b.
@@ -606,13 +574,11 @@ Proof.
   cbn [step] in H. rewrite Et in H. destruct (length (y_flight y) <? max_in_flight); [|discriminate].
   inversion H; subst y'; clear H.
   destruct (si_idle y S _ Hb) as [C F].
-  destruct (admit_stage (y_world y) o (y_next y) (si_cfg y S) (si_docs y S) (si_texts y S) C F Hs) as (Hst & Fc & Fd & Ft & Fs).
+  destruct (admit_stage (y_world y) o (y_next y) (si_cfg y S) C F Hs) as (Hst & Fc & Fs).
   set (hn := mkh (y_next y) (prog o) (locals_of o)) in *.
   assert (Hun : hurl hn = op_target o) by reflexivity.
   constructor; cbn [y_world y_flight y_next].
   - exact Fc.
-  - exact Fd.
-  - exact Ft.
   - rewrite map_app. cbn [map h_id hn]. apply NoDup_app_intro.
     + exact (si_ids y S).
     + constructor; [intros []|constructor].
@@ -646,8 +612,6 @@ Lemma sinv_init : forall h w, Inv w -> SInv (init h w).
 Proof.
   intros h w I. constructor; cbn [init y_world y_flight y_next].
   - exact (inv_cfg w I).
-  - exact (inv_docs w I).
-  - exact (inv_text w I).
   - constructor.
   - intros hs [].
   - constructor.
@@ -671,19 +635,20 @@ Qed.
 Theorem exclusive_is_schedule : forall cs y y', xrun cs y = Some y' -> run cs y = Some y'.
 Proof. exact xrun_run. Qed.
 
-(* non-vacuity: three documents, their handlers interleaved instr by instr, <= 3 in flight *)
+(* non-vacuity: three documents (one of them a source file whose identifiers change), their handlers
+   interleaved instr by instr, <= 3 in flight *)
 Definition conc_history : list op :=
-  [Open (UFile 0 0) LMarkdown (mktext 0 0); Open (UFile 0 1) LPlain (mktext 1 0); Open (UUntitled 0) LCode (mktext 2 0);
-   Change (UFile 0 0) (mktext 3 0); Save (UFile 0 1); Close (UUntitled 0); Ignore (UFile 0 0) 1].
+  [Open (UFile 0 0) LMarkdown (mktext 0 0) 1; Open (UFile 0 1) LCode (mktext 1 4) 1; Open (UUntitled 0) LCode (mktext 2 0) 1;
+   Change (UFile 0 0) (mktext 3 0) 2; Save (UFile 0 1); Close (UUntitled 0); Ignore (UFile 0 0) 1].
 Fixpoint round_robin (n : nat) (ids : list nat) : list choice :=
   match n with 0 => [] | S n' => map CRun ids ++ round_robin n' ids end.
 Definition conc_schedule : list choice :=
-  [CAdmit; CAdmit; CAdmit] ++ round_robin 8 [0; 1; 2] ++
+  [CAdmit; CAdmit; CAdmit] ++ round_robin 6 [0; 1; 2] ++ [CRun 0; CRun 2; CRun 0; CRun 2] ++ repeat (CRun 1) 5 ++
   [CAdmit; CAdmit; CAdmit] ++ round_robin 2 [3; 4; 5] ++ round_robin 6 [3; 4] ++ [CRun 4; CAdmit; CRun 6; CRun 6].
 
 Example conc_schedule_runs :
   exists y, xrun conc_schedule (init conc_history (world0 0)) = Some y /\ quiescentb y = true /\
-    lastword (y_world y) (UFile 0 0) = PDiag (mkargs (mktext 3 0) LMarkdown (mkdict [] [] 0) 0 0 0 [1]) /\
-    lastword (y_world y) (UFile 0 1) = PDiag (mkargs (mktext 1 0) LPlain (mkdict [] [] 0) 0 0 0 []) /\
+    lastword (y_world y) (UFile 0 0) = PDiag (mkargs (mktext 3 0) LMarkdown (mkdict [] [] 0) (mkdict [] [] 0) 0 0 0 [1]) /\
+    lastword (y_world y) (UFile 0 1) = PDiag (mkargs (mktext 1 4) LCode (mkdict [] [] 4) (mkdict [] [] 4) 0 0 0 []) /\
     lastword (y_world y) (UUntitled 0) = PEmpty.
 Proof. eexists. split; [vm_compute; reflexivity|]. repeat split; vm_compute; reflexivity. Qed.
